@@ -9,7 +9,7 @@ GOTAB = c10.GOTAB
 GOFILES = ["all.go"]
 EXTRACT = c10.EXTRACT
 HANDLERS = c10.HANDLERS
-SCHEMES = ["8", "16", "24", "32", "rgba", "nrgba", "cmyk", "gray", "inv", "mix1", "mix2", "mix3", "mix4"]
+SCHEMES = ["8", "16", "24", "32", "rgba", "nrgba", "cmyk", "gray", "inv", "mix1", "mix2", "mix3", "mix4", "pal"]
 MODEL_IS_SPEC = True   # theorems C11_*: the model's accessors are the prescribed kind / bounds / content
 
 RULE = ("model-compared: accessors (kind, dimensionality, bounds, Content, CheckSum) of every encoder family for contents of every symbol "
